@@ -141,12 +141,15 @@ def run(chk):
                 Mx.append(row)
             d = X.Decider(seed=chk.seed + 17, k=K_pts)
             ok = True; detail = ''
-            for pt in d.points:
+            n_eval = 0
+            extra_pts = []
+            for pt in list(d.points) + extra_pts:
                 try:
                     Yv = [[pt.ev(Y[i][s]) for s in range(nsol)] for i in range(nys)]
                     Mv = [[pt.ev(Mx[i][s]) for s in range(nsol)] for i in range(nys)]
                 except X.Resample:
                     continue
+                n_eval += 1
                 rY = X.rank_gf(Yv)
                 rYM = X.rank_gf([Yv[i] + Mv[i] for i in range(nys)])
                 if rY != nsol:
@@ -161,6 +164,25 @@ def run(chk):
                     detail = (f'rank[Y | A Y - dY/dr] = {rYM} > rank Y = {rY}: A*Y_s - dY_s/dr leaves the span of the starting vectors for solution slot(s) {offenders} '
                               f'(float residual up to {res:.3g}); the vectors at r and r+dr are not related by {cname}')
                     ok = False; break
+            if n_eval == 0:
+                # every sample point hit a pole / a non-residue under a square root: try further points before giving up (never pass on zero evaluations)
+                for extra_seed in range(1, 40):
+                    d2 = X.Decider(seed=chk.seed + 17 + 101 * extra_seed, k=K_pts)
+                    for pt in d2.points:
+                        try:
+                            Yv = [[pt.ev(Y[i][s]) for s in range(nsol)] for i in range(nys)]
+                            Mv = [[pt.ev(Mx[i][s]) for s in range(nsol)] for i in range(nys)]
+                        except X.Resample:
+                            continue
+                        n_eval += 1
+                        rY = X.rank_gf(Yv); rYM = X.rank_gf([Yv[i] + Mv[i] for i in range(nys)])
+                        if rY != nsol:
+                            ok = False; detail = f'the {nsol} starting vectors are linearly dependent (rank {rY})'; break
+                        if rYM != rY:
+                            ok = False; detail = f'rank[Y | A Y - dY/dr] = {rYM} > rank Y = {rY}: the vectors at r and r+dr are not related by {cname}'; break
+                    if n_eval >= K_pts or not ok: break
+                if n_eval == 0:
+                    raise AnalysisError(f'{lab}: no sample point could be evaluated (all hit poles / non-residues)')
             chk.ob('R04.1', f'{lab}: span of the starting vectors is invariant under {cname} (rank[Y | A Y - Y\'] = rank Y)', ok, detail, where,
                    key=f'R04.1|{fname}', method=f'exact rank over GF(p^2) at {len(d.points)} points')
             chk.note_analysed('functions', lab)
